@@ -456,7 +456,7 @@ def do_sampler(run, op):
     for nm, g_ in guards:
         run.checks += 1
         run.nontrivial = True
-        bad = present.changed(g_)
+        bad = present.changed(g_, run)
         if bad:
             run.fail("own.rng.sampler", {"call": "Generator", "arg": nm, "present": g_["kind"]},
                      "random.Generator modified its %s argument (%s): %s" % (nm, g_["kind"], bad))
@@ -566,7 +566,7 @@ def do_cholesky(run, op):
     for nm, g_ in guards:
         run.checks += 1
         run.nontrivial = True
-        bad = present.changed(g_)
+        bad = present.changed(g_, run)
         if bad:
             run.fail("own.rng.cholesky", {"call": op["api"], "arg": nm, "present": g_["kind"]},
                      "Cholesky sampling modified its %s argument (%s): %s" % (nm, g_["kind"], bad))
